@@ -26,5 +26,8 @@ def run(tier):
                             "schedulable steps, dsatuto, dba, gdba two configurations, maxsum and amaxsum with and without damping/noise) on Gen_Dcop "
                             "shapes with domains of size 2 and 3, with and without initial values; every value_selection call and the current_value "
                             "after every step are logged as domain indices (-1 = not a domain value) and checked by AlgoMon; non-trivial = at least "
-                            "one value_selection call in the execution")
+                            "one value_selection call in the execution. MODEL (MGM): Mgm.tla checked by TLC over every schedule and draw "
+                            "(invariant ValueInDomain), every explored transition replayed on the real computations")
+    from ..mgmmodel import model_part
+    model_part(v, tier, ["ValueInDomain"], CLAUSES, [], seed_off=10, shapes=["pair3", "path3d3", "unarypair", "isolated"] if quick else None)
     return v.finish()
